@@ -306,7 +306,22 @@ def sc_classifiers(d, kind, n, K, encs, cost):
     mix = C11._stub_mixture(d, 2) if kind == "mixture" else None      # one mixture model (one responsibility table) for all encodings
     for enc in encs:
         e = ENC[enc]
-        if kind == "sklearn":
+        if kind == "sklearn_unfittable":
+            # the wrapped estimator raises in fit: predict_proba falls back to the label frequencies
+            from sklearn.base import BaseEstimator, ClassifierMixin
+            from skactiveml.classifier import SklearnClassifier
+
+            class Unfittable(ClassifierMixin, BaseEstimator):
+                def fit(self, X, y, sample_weight=None):
+                    raise ValueError("this estimator cannot be fitted")
+
+                def predict_proba(self, X):
+                    raise NotImplementedError
+
+                def predict(self, X):
+                    raise NotImplementedError
+            clf = SklearnClassifier(Unfittable(), classes=e["classes"][:K], missing_label=e["missing"], cost_matrix=C, random_state=seed)
+        elif kind == "sklearn":
             from skactiveml.classifier import SklearnClassifier
             if d.sym:
                 est = C11.make_stub_estimator()()
@@ -330,7 +345,8 @@ def sc_classifiers(d, kind, n, K, encs, cost):
         d.prove(d.eq_arr(Pq, res[0][0], 1e-9), "same_probabilities_under_every_encoding", info=dict(encoding=enc))
         a0 = class_index(d.flat(res[0][1])[0], encs[0], K)
         a1 = class_index(d.flat(pr)[0], enc, K)
-        d.prove(a0 is not None and a0 == a1, "predictions_are_reencoded_originals", info=dict(encoding=enc, first=a0, other=a1))
+        if kind != "sklearn_unfittable":       # (the fallback prediction is a random draw from the label frequencies)
+            d.prove(a0 is not None and a0 == a1, "predictions_are_reencoded_originals", info=dict(encoding=enc, first=a0, other=a1))
     d.witness(any(k >= 0 for k in idx), "some_labeled")
 
 
@@ -439,7 +455,7 @@ HARNESSES = [
                   "skactiveml.utils._aggregation:compute_vote_vectors"],
                  required_witnesses=("some_labeled",), product_abstraction=True, timeout_ms=30000),
     dual_harness("classifiers_under_encodings", sc_classifiers,
-                 lambda tier: [dict(kind=k, n=2, K=K, encs=e, cost=cm) for k in ("sklearn", "mixture") for K in (2, 3)
+                 lambda tier: [dict(kind=k, n=2, K=K, encs=e, cost=cm) for k in ("sklearn", "sklearn_unfittable", "mixture") for K in (2, 3)
                                for cm in (False, True) for e in ([PAIRS_Q[0]] if tier == "quick" else PAIRS_Q)
                                if tier != "quick" or (K, cm) in ((2, False), (3, True))],
                  ["skactiveml.classifier._wrapper:SklearnClassifier._fit", "skactiveml.classifier._wrapper:SklearnClassifier.predict_proba",
